@@ -1,6 +1,7 @@
 package c11
 
 import (
+	"fmt"
 	"testing"
 
 	"github.com/hashicorp/nodeenrollment"
@@ -29,7 +30,7 @@ func FuzzDecrypt(f *testing.F) {
 	f.Add([]byte{0x0a, 0x00})
 	f.Add([]byte("not a protobuf"))
 	f.Fuzz(func(t *testing.T, data []byte) {
-		checkMutant(t, data, nSide, msg, "fuzz", string(data), nil)
+		checkMutant(t, data, nSide, msg, "fuzz", string(data), func() any { return map[string]any{"input_hex": fmt.Sprintf("%x", data)} })
 	})
 }
 
